@@ -68,8 +68,13 @@ ipv4prefix_str2ip(const char *value, size_t value_len, struct in_addr *addr, uin
     const char *pref_str;
     char *mask_str = NULL;
 
-    /* it passed the pattern validation */
+    /* it passed the pattern validation unless the value is only being stored */
     pref_str = ly_strnchr(value, '/', value_len);
+    if (!pref_str) {
+        ret = ly_err_new(err, LY_EVALID, LYVE_DATA, NULL, NULL, "Invalid IPv4 prefix \"%.*s\" without a prefix length.",
+                (int)value_len, value);
+        goto cleanup;
+    }
     ly_strntou8(pref_str + 1, value_len - (pref_str + 1 - value), prefix);
 
     /* get just the network prefix */
